@@ -15,7 +15,7 @@ def one(m):
     shutil.rmtree(d, ignore_errors=True); os.makedirs(d)
     for f in glob.glob("/repo/*.go") + ["/repo/go.mod"]:
         shutil.copy(f, d)
-    res = dict(id=m["id"], why=m["why"], suite=None, checks={})
+    res = dict(id=m["id"], why=m["why"], suite=None, checks={}, allow=m.get("allow", [0]))
     try:
         for (fn, old, new) in m["edits"]:
             p = os.path.join(d, fn); s = open(p).read()
@@ -49,14 +49,15 @@ def main():
     with ThreadPoolExecutor(j) as ex:
         results = list(ex.map(one, sel))
     lines = ["# Soundness results: legitimate alternative implementations must not raise alarms", "",
-             "`check rc` must be 0 everywhere (1 = FALSE ALARM, 2 = inconclusive).", "",
+             "`check rc` must be 0 everywhere (1 = FALSE ALARM, 2 = inconclusive); for the few alternatives marked `allow=[0, 2]` (not observable under synctest) exit 2 is admissible, exit 1 never.", "",
              "| alternative | property | pinned suite on it | check rc | wall s | reported |", "|---|---|---|---|---|---|"]
     silent = alarms = 0
     for r in results:
         if not r["checks"]:
             lines.append(f"| {r['id']} | - | {r['suite']} | - | - | |")
         for pid, c in r["checks"].items():
-            silent += c["rc"] == 0; alarms += c["rc"] != 0
+            okrc = c["rc"] in r.get("allow", [0])
+            silent += okrc; alarms += not okrc
             lines.append(f"| {r['id']} | {pid} | {r['suite']} | {c['rc']} | {c['wall']} | {c['msg'].replace('|', '/')} |")
     lines.insert(2, f"silent {silent}, not silent {alarms}\n")
     if not args:
